@@ -19,6 +19,10 @@ def run(ctx):
     # history-free configuration of the cross sums: a finite cyclic graph, histories of every length
     ctx.tlc("roll2-win", "MCRollWin2", "MCRollWin2_quick.cfg" if q else "MCRollWin2_thorough.cfg", workers=12 if q else 16,
             timeout=900 if q else 7200, emit=False)
+    # the add -> emit -> remove protocol for EVERY length, window and summand: what is emitted is the sum over exactly
+    # the window, what stays is the part the next position keeps (TLA+ proof system, 95 obligations; index arithmetic
+    # shared with Window.tla through WindowIdx.tla)
+    ctx.tlaps("roll-sum-proof", "RollSumProof", needs=("WindowIdx",))
     binp = ctx.build("tvh-roll")
     extra = [] if q else ["--full"]
     l1, l2 = laws1(ctx), laws2(ctx)
